@@ -382,24 +382,26 @@ class SqliteConnection(sqlite3.Connection):
         # for use with fromiter.  Temporarily turn it off.
         row_factory_old = self.row_factory
         self.row_factory = None
-        curs = self.cursor()
-        curs.execute(query)
+        try:
+            curs = self.cursor()
+            curs.execute(query)
 
-        if dtype is None:
-            # we have to get the data first in order to determine the
-            # data types
-            rows = curs.fetchall()
-            if len(rows) == 0:
-                return numpy.array([], dtype='i4')
+            if dtype is None:
+                # we have to get the data first in order to determine the
+                # data types
+                rows = curs.fetchall()
+                if len(rows) == 0:
+                    res = numpy.array([], dtype='i4')
+                else:
+                    dtype = self._extract_row_dtype(curs.description, rows)
+                    res = numpy.array(rows, dtype=dtype)
+            else:
+                # this is cheaper
+                res = numpy.fromiter(curs, dtype=dtype)
 
-            dtype = self._extract_row_dtype(curs.description, rows)
-            res = numpy.array(rows, dtype=dtype)
-        else:
-            # this is cheaper
-            res = numpy.fromiter(curs, dtype=dtype)
-
-        curs.close()
-        self.row_factory = row_factory_old
+            curs.close()
+        finally:
+            self.row_factory = row_factory_old
         return res
 
     def _extract_row_dtype(self, description, rows):
